@@ -480,8 +480,36 @@ func (s *SplitExp) BindingPath(bindPath string,
 			val.MergeOver = src
 		}
 	case *ArrayExp:
+		// All of the split arguments of a call must have the same length.
+		// If this value came from an enclosing split, its length is only
+		// known here, once the enclosing index is.
+		if src != nil && src.KnownLength() &&
+			src.CallMode() == ModeArrayCall &&
+			src.ArrayLength() != len(val.Value) {
+			return s, s.wrapError(&bindingError{
+				Msg: "array length mismatch " + strconv.Itoa(len(val.Value)) +
+					" vs " + strconv.Itoa(src.ArrayLength()),
+			})
+		}
 		src = val
 	case *MapExp:
+		if val.Kind == KindMap && src != nil && src.KnownLength() &&
+			src.CallMode() == ModeMapCall {
+			keys := src.Keys()
+			if len(keys) != len(val.Value) {
+				return s, s.wrapError(&bindingError{
+					Msg: "map length mismatch " + strconv.Itoa(len(val.Value)) +
+						" vs " + strconv.Itoa(len(keys)),
+				})
+			}
+			for k := range val.Value {
+				if _, ok := keys[k]; !ok {
+					return s, s.wrapError(&bindingError{
+						Msg: "map key missing " + strconv.Quote(k),
+					})
+				}
+			}
+		}
 		src = val
 	case *RefExp:
 		if _, ok := val.Forks[s.Call]; ok {
